@@ -236,7 +236,9 @@ theorem runWorkers_life (fuel : Nat) (m : M) (h : Life m.1) : Life (runWorkers f
     split
     · exact h
     · split
-      · next hs => exact ih _ (handleStopped_life m h hs)
+      · next hs =>
+        simp only [Bool.and_eq_true] at hs
+        exact ih _ (handleStopped_life m h hs.1)
       · split
         · next ha =>
           simp only [Bool.and_eq_true] at ha
@@ -272,6 +274,8 @@ theorem handle_life (s : St) (p : Parked) (kn : Nat → Bool) (op : Op) (h : Lif
   · simp only [onSt_fst]
     exact (handleVerifyCommand_life ({ s with persisted := none }, []) (h.congr (by lframe))).congr (by lframe)
   · exact h
+  · exact h
+  · exact h.congr (by lframe)
   · exact h.congr (by lframe)
   · split <;> exact h.congr (by lframe)
   · split
